@@ -407,10 +407,31 @@ def subset(check, prog):
     if ok:
         shape, spacing = dg[0]['args'][0], dg[0]['args'][1]
         x, y = intern(('idx', od, ('const', 'x'))), intern(('idx', od, ('const', 'y')))
+        def step(t, ax):
+            # the first difference of the axis -- where there is one: an axis of a
+            # single pixel (1 x N images are in the quantifier) has none, and any
+            # constant will do there, since x and y are assigned afterwards
+            d0 = ('idx', ('call', 'numpy.diff', (ax,), ()), num(0))
+            if t == d0:
+                return 'bare'
+            n_ = ('call', 'len', (ax,), ())
+            if t[0] == 'ite' and t[2] == d0 and t[3][0] in ('num', 'const') and \
+                    t[1][0] == 'cmp' and (
+                        (t[1][1] == '<' and t[1][2] == num(1) and t[1][3] == n_) or
+                        (t[1][1] == '>' and t[1][2] == n_ and t[1][3] == num(1)) or
+                        (t[1][1] == '<=' and t[1][2] == num(2) and t[1][3] == n_)):
+                return 'guarded'
+            return None
+        kinds = [step(t, ax) for t, ax in zip(spacing[1], (x, y))] \
+            if spacing[0] == 'tuple' and len(spacing[1]) == 2 else [None, None]
         ok = shape == ('tuple', (('call', 'len', (x,), ()), ('call', 'len', (y,), ()))) \
-            and spacing == ('tuple', (
-                ('idx', ('call', 'numpy.diff', (x,), ()), num(0)),
-                ('idx', ('call', 'numpy.diff', (y,), ()), num(0))))
+            and all(kinds)
+        check.require(not ok or all(k == 'guarded' for k in kinds), 'D2-original-axes',
+                      'FitResult.forward one-pixel axes',
+                      'the grid is rebuilt for 1 x N and N x 1 images as well', loc,
+                      fail_detail='np.diff(axis)[0] is taken unconditionally: a subset '
+                      'of a one-row image has no first difference (IndexError from '
+                      'result.hologram)')
     check.require(ok, 'D2-original-axes', 'FitResult.forward grid',
                   'grid shape and spacing come from the remembered x / y axes', loc)
     # the grid is rebuilt only for data that *are* a flat subset: an image has
